@@ -547,7 +547,8 @@ func genLayer(t *rapid.T, idx int) Layer {
 	if rapid.IntRange(0, 9).Draw(t, "nil") == 0 {
 		return Layer{Nil: true}
 	}
-	universe := []string{"a", "b", "d", "d/x", "d/y", "d/s", "d/s/t", "e", "e/z", "d-b", "d-b/x", "d.o", "d.o/x"}
+	// (names that differ only in case are different names; dots, blanks and unicode are ordinary)
+	universe := []string{"a", "b", "d", "d/x", "d/y", "d/s", "d/s/t", "e", "e/z", "d-b", "d-b/x", "d.o", "d.o/x", "A", "D", "D/x", "d/X", "e/Z", "a b", "é", "d/é.x"}
 	m := map[string]Entry{}
 	blocked := map[string]bool{}
 	for _, p := range universe {
@@ -663,6 +664,33 @@ func TestProp(t *testing.T) {
 		}
 	}
 
+	// exhaustive: names that differ only in letter case, within a layer and across layers
+	if run.First() {
+		var opts []Layer
+		for mask := 0; mask < 32; mask++ {
+			m := map[string]Entry{}
+			for bit, p := range []string{"c/Button", "c/button", "C/button", "c/BUTTON", "readme"} {
+				if mask&(1<<bit) != 0 {
+					m[p] = Entry{Content: fmt.Sprintf("%s-%d", p, mask)}
+				}
+			}
+			opts = append(opts, Layer{Entries: m})
+		}
+		okC := true
+		for ui, up := range opts {
+			for li, lo := range opts {
+				if !okC || (ui+li)%3 != 0 && !run.Thorough() {
+					continue
+				}
+				c := Case{Stack: []Layer{up, lo}, Paths: []string{".", "c", "C", "c/Button", "c/button", "C/button", "c/BUTTON", "C/Button", "readme", "README"}, Patterns: []string{"*", "*/*", "c/*", "C/*", "[cC]/[bB]*", "c/[Bb]utton", "*/button", "*/B*"}}
+				_, cls := classify(c)
+				if !run.Each(rec, "case-enum", c, true, append(cls, "names-differing-only-in-case"), check) {
+					okC = false
+				}
+			}
+		}
+	}
+
 	// layers changing underneath one overlay value: two-layer stacks, one layer replaced
 	if run.First() {
 		var up, lo []Layer
@@ -738,8 +766,8 @@ func TestProp(t *testing.T) {
 		for i := 0; i < n; i++ {
 			c.Stack = append(c.Stack, genLayer(t, i))
 		}
-		c.Paths = []string{".", "a", "b", "d", "d/x", "d/y", "d/s", "d/s/t", "e", "e/z", "zz", "d/zz", "d-b", "d-b/x", "d.o/x", "a/x", "d/x/deeper"}
-		c.Patterns = []string{"*", "*/*", "*/*/*", "d/*", "d/s/?", "[a-d]", "e*", "*/[xz]", "*/x", "d*/x", "d*/*", "d[-.]*/x"}
+		c.Paths = []string{".", "a", "b", "d", "d/x", "d/y", "d/s", "d/s/t", "e", "e/z", "zz", "d/zz", "d-b", "d-b/x", "d.o/x", "a/x", "d/x/deeper", "A", "D", "D/x", "d/X", "e/Z", "a b", "é", "d/é.x", "E"}
+		c.Patterns = []string{"*", "*/*", "*/*/*", "d/*", "d/s/?", "[a-d]", "e*", "*/[xz]", "*/x", "d*/x", "d*/*", "d[-.]*/x", "[aA]", "[dD]/[xX]", "?/*", "* *", "*/?.x"}
 		return c
 	}, classify, check)
 }
